@@ -71,13 +71,16 @@ def lstr(t):
 class Env(object):
     """variable -> (lean name, type); `facts`: source text of an expression -> (lean name, type) established by narrowing (e.g. 'rt[0]')"""
 
-    def __init__(self, vars_=None, facts=None, counter=None):
+    def __init__(self, vars_=None, facts=None, counter=None, aliases=None):
         self.vars = dict(vars_ or {})
         self.facts = dict(facts or {})
         self.counter = counter if counter is not None else [0]
+        # name -> (dictionary variable, key text, dictionary type): the name holds the very object stored under that key of the dictionary (x = d.setdefault(key, {})),
+        # so a change made through the name is a change of the dictionary's entry
+        self.aliases = dict(aliases or {})
 
     def copy(self):
-        return Env(self.vars, self.facts, self.counter)
+        return Env(self.vars, self.facts, self.counter, self.aliases)
 
     def fresh(self, base):
         self.counter[0] += 1
@@ -300,9 +303,14 @@ class Proc(object):
             if not e.elts:
                 return ("[]", "EmptyList")
             parts = [self.expr(x, env) for x in e.elts]
+            if len(set(repr(p_[1]) for p_ in parts)) > 1 and self.spec.get("arg_lists"):
+                # a list of differently typed values built to be star-applied to a constructor: the tuple of its items
+                return ("(" + ", ".join(p_[0] for p_ in parts) + ")", ("Prod",) + tuple(p_[1] for p_ in parts))
             return ("[" + ", ".join(p[0] for p in parts) + "]", ("List", parts[0][1]))
         if isinstance(e, ast.ListComp):
             return self.listcomp(e, env)
+        if isinstance(e, ast.Dict) and not e.keys:
+            return ("[]", "EmptyDict")
         raise Untranslatable("expression %s" % type(e).__name__)
 
     def attribute(self, e, env):
@@ -384,7 +392,7 @@ class Proc(object):
         if isinstance(op, (ast.In, ast.NotIn)):
             x, xty = self.expr(a, env)
             c, cty = self.expr(b, env)
-            if isinstance(cty, tuple) and cty[0] == "AssocL" and cty[1] == xty:
+            if isinstance(cty, tuple) and cty[0] in ("AssocL", "ODict") and cty[1] == xty:
                 t = "(%s.any fun e => e.1 == %s)" % (c, x)
                 return (t if isinstance(op, ast.In) else "(!%s)" % t, "Bool")
             if not (isinstance(cty, tuple) and cty[0] in ("List", "Set") and cty[1] == xty):
@@ -507,6 +515,13 @@ class Proc(object):
             if len(args) != len(argtys):
                 raise Untranslatable("arity of %s" % fname)
             return ("(%s %s)" % (lname, " ".join(args)), rty)
+        if fname in self.spec.get("dispatch", {}) and isinstance(f, ast.Attribute):
+            # self.method(...) on an object of class spec["klass"]: the translated definition the class's method resolution order selects (checked against the class statements)
+            p = self.procs[("name", self.spec["dispatch"][fname])]
+            owner = mro_owner(ast.parse(self.src), self.spec["klass"], fname)
+            if p["file"] != self.spec["file"] or p["func"] != "%s.%s" % (owner, fname):
+                raise Untranslatable("%s.%s resolves to %s.%s, not to %s" % (self.spec["klass"], fname, owner, fname, p["func"]))
+            return self.call_proc(p, fname, f, e, env)
         if fname is not None and self.proc_key(fname) in self.procs:
             p0 = self.procs[self.proc_key(fname)]
             cands = [p0] + list(p0.get("variants", []))
@@ -557,6 +572,8 @@ class Proc(object):
                 if n not in [m for m, _ in self.fixed]:
                     raise Untranslatable("%s needs the operation %s, which the caller does not declare" % (fname, n))
             imp = " ".join(n for n, _ in p.get("implicit", []))
+            if hasattr(self, "called"):
+                self.called.append(p)
             return ("(%s %s %s)" % (p["name"], imp, " ".join(args)), p["ret"])
 
     def call_other(self, fname, f, e, env):
@@ -1275,7 +1292,8 @@ class Proc(object):
                 key = self.coerce(*self.expr(s.targets[0].slice, env), dty[1])
                 val = self.coerce(*self.expr(s.value, env), dty[2])
                 txt, en = self.assign_name(s.targets[0].value, "(odictSet %s %s %s)" % (dt, key, val), dty, env)
-                return txt + self.block(rest, en, k)
+                txt2, en = self.write_back(d, en)
+                return txt + txt2 + self.block(rest, en, k)
             raise Untranslatable("subscript assignment to %s" % (dty,))
         if isinstance(s, ast.Assign) and len(s.targets) == 1 and isinstance(s.targets[0], ast.Name) and s.targets[0].id in self.spec.get("absent_objects", {}):
             return self.block(rest, env, k)          # zeroPair = ZeroPair(): the declared absent-object
@@ -1353,6 +1371,10 @@ class Proc(object):
                 dv = self.coerce(*self.expr(s.value.args[1], env), dty[2])
                 txt1, en = self.assign_name(s.value.func.value, "(odictSetDefault %s %s %s)" % (d, key, dv), dty, env)
                 txt2, en = self.assign_name(tgt, "((lookupLast %s %s).getD %s)" % (en.vars[s.value.func.value.id][0], key, dv), dty[2], en)
+                if isinstance(dty[2], tuple) and dty[2][0] == "ODict":
+                    # the name now holds the dictionary stored under the key itself, not a copy
+                    en = en.copy()
+                    en.aliases[tgt.id] = (s.value.func.value.id, key, dty)
                 return txt1 + txt2 + self.block(rest, en, k)
             vt, vty = self.expr(s.value, env)
             if isinstance(vty, tuple) and vty[0] == "Except":
@@ -1361,8 +1383,10 @@ class Proc(object):
                     raise Untranslatable("call of a raising function in a function that does not raise")
                 n = env.fresh("v")
                 txt, en = self.assign_name(tgt, n, vty[2], env)
+                en = self.drop_aliases(tgt, en)
                 return self.bind_raising(vt, n, txt + self.block(rest, en, k), env)
             txt, en = self.assign_name(tgt, vt, vty, env)
+            en = self.drop_aliases(tgt, en)
             return txt + self.block(rest, en, k)
         if isinstance(s, ast.AugAssign) and isinstance(s.target, ast.Name):
             fake = ast.BinOp(left=ast.Name(id=s.target.id, ctx=ast.Load()), op=s.op, right=s.value)
@@ -1384,6 +1408,16 @@ class Proc(object):
                 raise Untranslatable("sort of %s" % (xty,))
             txt, en = self.assign_name(s.value.func.value, "(stableSortBy (fun a b => decide (%s a b ≤ 0)) %s)" % (self.procs[(self.spec["file"], cmpf)]["name"], xs), xty, env)
             return txt + self.block(rest, en, k)
+        if isinstance(s, ast.Expr) and isinstance(s.value, ast.Call) and isinstance(s.value.func, ast.Attribute) and s.value.func.attr == "setdefault" \
+                and isinstance(s.value.func.value, ast.Name) and s.value.func.value.id in env.vars and len(s.value.args) == 2 and not s.value.keywords \
+                and isinstance(env.vars[s.value.func.value.id][1], tuple) and env.vars[s.value.func.value.id][1][0] == "ODict":
+            # d.setdefault(key, value) for its effect: the entry is added (at the end) when the key is new
+            d, dty = env.vars[s.value.func.value.id]
+            key = self.coerce(*self.expr(s.value.args[0], env), dty[1])
+            dv = self.coerce(*self.expr(s.value.args[1], env), dty[2])
+            txt, en = self.assign_name(s.value.func.value, "(odictSetDefault %s %s %s)" % (d, key, dv), dty, env)
+            txt2, en = self.write_back(s.value.func.value.id, en)
+            return txt + txt2 + self.block(rest, en, k)
         if isinstance(s, ast.Expr) and isinstance(s.value, ast.Yield):
             vt, vty = self.expr(s.value.value, env)
             elt = self.inner_ret()[1]
@@ -1501,6 +1535,24 @@ class Proc(object):
         if isinstance(s, ast.For):
             return self.forloop(s, rest, env, k)
         raise Untranslatable("statement %s" % type(s).__name__)
+
+    def drop_aliases(self, tgt, env):
+        """a plain assignment to a name: it no longer stands for a dictionary's entry, and no name stands for an entry of the dictionary it used to hold"""
+        name = tgt.id if isinstance(tgt, ast.Name) else None
+        if name is None or not any(a == name or v[0] == name for a, v in env.aliases.items()):
+            return env
+        en = env.copy()
+        en.aliases = dict((a, v) for a, v in en.aliases.items() if a != name and v[0] != name)
+        return en
+
+    def write_back(self, name, env):
+        """after `name` was changed: when it is an alias of a dictionary's entry, the dictionary holds the changed object"""
+        al = env.aliases.get(name)
+        if not al:
+            return "", env
+        dname, key, dty = al
+        txt, en = self.assign_name(ast.Name(id=dname, ctx=ast.Store()), "(odictSet %s %s %s)" % (env.vars[dname][0], key, env.vars[name][0]), dty, env)
+        return txt, en
 
     def hoist_raising(self, s, env):
         def raising_call(c):
@@ -1691,7 +1743,7 @@ class Proc(object):
             raise Untranslatable("look-up table in scope of a loop")
         assigned, direct = self.assigns(s.body), self.assigns(s.body, via_args=False)
         # a variable only HANDED to a call can change only if its value is mutable (a stream, list, set or dictionary): numbers, strings and records are not
-        mutable = lambda t: t == "Stream" or (isinstance(t, tuple) and t[0] in ("List", "Set", "AssocL", "MultiL"))
+        mutable = lambda t: t == "Stream" or (isinstance(t, tuple) and t[0] in ("List", "Set", "AssocL", "MultiL", "ODict"))
         carried = [(n, l, t) for (n, l, t) in scope if n in direct or (n in assigned and mutable(t))]
         if not carried and not raising:
             raise Untranslatable("a nested loop that changes nothing")
@@ -1739,6 +1791,9 @@ class Proc(object):
             proj = res if len(carried) == 1 else "%s.%s" % (res, ".".join(["2"] * i + (["1"] if i < len(carried) - 1 else [])))
             out += "let %s : %s := %s;\n" % (nl, lty(t), proj)
             en = en.bind(n, nl, t)
+        for (n, l, t) in carried:
+            wb, en = self.write_back(n, en)
+            out += wb
         return out + self.block(rest, en, k) + (")" if raising else "")
 
     # -------------------------------------------------------------------------------------------------------------------- main
@@ -1824,8 +1879,13 @@ PFB_OPS = [("lookupModifier", ("Fun", [("Rec", "PfbSelf"), "Str"], ("Opt", ("Rec
            ("applyModifier", ("Fun", [("Rec", "ModFactory"), ("List", ("Rec", "PInst")), ("Rec", "PfbSelf")], ("Except", "PfbErr", ("Rec", "PForm")))),
            ("applyForm", ("Fun", [("Rec", "FormFactory"), ("List", "Rat")], ("Except", "PfbErr", ("Rec", "PForm"))))]
 EBF = "config/_eam_potential_builder.py"
+TFF = "config/_tabulation_factories.py"
 EB_REC = {"EmbRow": {"species": ("species", "Str"), "potential_form_instance": ("pfi", ("Rec", "Pfi"))}, "Pfi": {},
           "CpEam": {"eam_embed": ("eam_embed", ("List", ("Rec", "EmbRow"))), "eam_density": ("eam_density", ("List", ("Rec", "EmbRow")))}, "FnRec": {}}
+FS_REC = dict(EB_REC, **{"FsRow": {"species": ("species", ("Rec", "FsSpecies")), "potential_form_instance": ("pfi", ("Rec", "Pfi"))},
+                        "FsSpecies": {"from_species": ("from_species", "Str"), "to_species": ("to_species", "Str")},
+                        "CpEamFS": {"eam_embed": ("eam_embed", ("List", ("Rec", "EmbRow"))), "eam_density_fs": ("eam_density_fs", ("List", ("Rec", "FsRow")))}})
+FSD = ("ODict", "Str", ("ODict", "Str", ("Rec", "FnRec")))
 REF_OPS = [("refMass", ("Fun", ["Str"], ("Opt", "Rat"))), ("refNumber", ("Fun", ["Str"], ("Opt", "Int"))), ("refLatticeConstant", ("Fun", ["Str"], ("Opt", "Rat"))),
            ("refLatticeType", ("Fun", ["Str"], ("Opt", "Str")))]
 REF_TRY = {"self._reference_data.get": {"atomic_mass": ("refMass", "Rat"), "atomic_number": ("refNumber", "Int"), "lattice_constant": ("refLatticeConstant", "Rat"),
@@ -2022,6 +2082,34 @@ PROCS = [
          ret=("Except", "BuildErr", ("List", ("Rec", "EamRec"))), records=dict(EAM_REC, **EB_REC),
          implicit=[("mkFn", ("Fun", [("Rec", "Pfi")], ("Rec", "FnRec"))), ("setOrder", ("Fun", [("List", "Str")], ("List", "Str")))] + REF_OPS,
          raises=[("species defined for density function do not match those for embedding functions", "BuildErr.speciesMismatch")], locals={"potlist": ("List", ("Rec", "EamRec"))}),
+    # ---- C04: the Finnis-Sinclair builder: the four methods the subclass overrides, and the inherited ones once more for its types (klass: the translator checks
+    #      that the subclass does not override what is taken from the base class)
+    dict(name="eam_extract_embed_fs", variant=True, klass="EAM_Potential_Builder_FS", file=EBF, func="EAM_Potential_Builder._extract_embed", params=[("cp", ("Rec", "CpEamFS"))],
+         ret=("List", ("Rec", "EmbRow")), records=FS_REC),
+    dict(name="eam_extract_density_fs", variant=True, klass="EAM_Potential_Builder_FS", file=EBF, func="EAM_Potential_Builder_FS._extract_density", params=[("cp", ("Rec", "CpEamFS"))],
+         ret=("List", ("Rec", "FsRow")), records=FS_REC),
+    dict(name="eam_density_species_fs", variant=True, klass="EAM_Potential_Builder_FS", file=EBF, func="EAM_Potential_Builder_FS._density_species", params=[("density", ("List", ("Rec", "FsRow")))],
+         ret=("Set", "Str"), records=FS_REC, locals={"species_list": ("List", "Str")}),
+    dict(name="eam_density_to_dict_fs", variant=True, klass="EAM_Potential_Builder_FS", file=EBF, func="EAM_Potential_Builder_FS._density_to_potential_form_dict",
+         params=[("density", ("List", ("Rec", "FsRow"))), ("potential_form_builder", "Unit")], ret=("Except", "BuildErr", FSD), records=FS_REC,
+         implicit=[("mkFn", ("Fun", [("Rec", "Pfi")], ("Rec", "FnRec")))], seg_ops={"potential_form_builder.create_potential_function": ("mkFn", [("Rec", "Pfi")], ("Rec", "FnRec"))},
+         locals={"outdict": FSD}, raises=[("Duplicate density function found", "BuildErr.duplicateDensity")]),
+    dict(name="eam_add_null_embed_fs", variant=True, klass="EAM_Potential_Builder_FS", file=EBF, func="EAM_Potential_Builder._add_null_embedding_functions", inout="embed_dict",
+         params=[("cp", ("Rec", "CpEamFS")), ("embed_dict", ("ODict", "Str", ("Rec", "FnRec"))), ("density_dict", FSD)], ret=("ODict", "Str", ("Rec", "FnRec")),
+         records=FS_REC, ops={"zero": ("zeroFn", [], ("Rec", "FnRec"))}),
+    dict(name="eam_add_null_dens_fs", variant=True, klass="EAM_Potential_Builder_FS", file=EBF, func="EAM_Potential_Builder_FS._add_null_density_functions", inout="density_dict",
+         set_order="setOrder", params=[("cp", ("Rec", "CpEamFS")), ("embed_dict", ("ODict", "Str", ("Rec", "FnRec"))), ("density_dict", FSD)], ret=FSD,
+         records=FS_REC, ops={"zero": ("zeroFn", [], ("Rec", "FnRec"))}, implicit=[("setOrder", ("Fun", [("List", "Str")], ("List", "Str")))]),
+    dict(name="eam_create_potential_fs", variant=True, klass="EAM_Potential_Builder_FS", file=EBF, func="EAM_Potential_Builder._create_eam_potential", key_error="BuildErr.keyError",
+         implicit=REF_OPS, params=[("species", "Str"), ("embed_dict", ("ODict", "Str", ("Rec", "FnRec"))), ("density_dict", FSD)], ret=("Except", "BuildErr", ("Rec", "EamRec")),
+         records=dict(EAM_REC, **FS_REC), rec_constructors={"EAMPotential": ("EamRec", ["Str", "Int", "Rat", ("Rec", "FnRec"), ("ODict", "Str", ("Rec", "FnRec")), "Rat", "Str"])},
+         rec_field_names={"EAMPotential": ["species", "atomicNumber", "mass", "embed", "densFS", "latticeConstant", "latticeType"]}),
+    dict(name="eam_init_potentials_fs", variant=True, klass="EAM_Potential_Builder_FS", file=EBF, func="EAM_Potential_Builder._init_eampotentials", inline=["_add_null_functions"],
+         skip_assign_from=["Potential_Form_Builder"], unit_locals=["potential_form_builder"], set_order="setOrder",
+         params=[("self.add_undefined", "Bool"), ("cp", ("Rec", "CpEamFS")), ("potential_form_registry", "Unit"), ("modifier_registry", "Unit")],
+         ret=("Except", "BuildErr", ("List", ("Rec", "EamRec"))), records=dict(EAM_REC, **FS_REC),
+         implicit=[("mkFn", ("Fun", [("Rec", "Pfi")], ("Rec", "FnRec"))), ("setOrder", ("Fun", [("List", "Str")], ("List", "Str")))] + REF_OPS,
+         raises=[("species defined for density function do not match those for embedding functions", "BuildErr.speciesMismatch")], locals={"potlist": ("List", ("Rec", "EamRec"))}),
     # ---- C09: the modifiers that fold a combinator over their arguments
     dict(name="modifier_reduce", file="_modifiers.py", func="_modifier_from_func_reduce", drop_logging=True, reduce_error="ModErr.noArguments",
          params=[("logger_name", "Str"), ("func", ("Fun", [("Rec", "FnObj2"), ("Rec", "FnObj2")], ("Rec", "FnObj2"))), ("potential_forms", ("List", ("Rec", "Pfi"))), ("potential_form_builder", "Unit")],
@@ -2176,6 +2264,46 @@ PROCS = [
     dict(name="lammps_extract_cutoffs", file="config/_tabulation_factories.py", func="LAMMPS_PairTabulationFactory.extract_cutoffs",
          params=[("cp", ("Rec", "CpRec"))], ret=("Except", "FactoryErr", ("Rec", "RCut")), records=CP_REC, super_calls={"extract_cutoffs": "pair_extract_cutoffs"},
          raises=[("needs at least two rows", "FactoryErr.fewerThanThreePoints")]),
+    # ---- C11: from the [Tabulation] values to the constructor arguments of the tabulation class - create_tabulation of the factories, per class of factory
+] + [
+    dict(name="%s_extract_potential_objects" % k, variant=(k != "pair"), klass=cls, file=TFF, func="PairTabulationFactory.extract_potential_objects",
+         params=[("cp", ("Rec", "CpRec")), ("potential_form_registry", "Unit"), ("modifier_registry", "Unit")], ret=("Except", "FactoryErr", ("List", ("Rec", "PotObj"))), records=CP_REC,
+         implicit=[("pairObjects", ("Fun", ["Unit", "Unit", ("Rec", "CpRec")], ("Except", "FactoryErr", ("List", ("Rec", "PotObj")))))],
+         ops={"_create_pair_objects": ("pairObjects", ["Unit", "Unit", ("Rec", "CpRec")], ("Except", "FactoryErr", ("List", ("Rec", "PotObj"))))})
+    for k, cls in [("pair", "PairTabulationFactory")]
+] + [
+    dict(name="pair_extract_tabulation_args", klass="PairTabulationFactory", file=TFF, func="PairTabulationFactory.extract_tabulation_args", arg_lists=True,
+         params=[("cp", ("Rec", "CpRec")), ("r_cutoff", ("Rec", "RCut")), ("potobjs", ("List", ("Rec", "PotObj"))), ("potential_form_registry", "Unit"), ("modifier_registry", "Unit")],
+         ret=("Prod", ("List", ("Rec", "PotObj")), "Rat", "Int"), records=CP_REC),
+    dict(name="eam_extract_tabulation_args", variant=True, klass="EAMTabulationFactory", file=TFF, func="EAMTabulationFactory.extract_tabulation_args", arg_lists=True,
+         drop_logging=True, dead_code=True,
+         params=[("cp", ("Rec", "CpRec")), ("r_cutoff", ("Rec", "RRhoCut")), ("potobjs", ("List", ("Rec", "PotObj"))), ("potential_form_registry", "Unit"), ("modifier_registry", "Unit")],
+         ret=("Except", "FactoryErr", ("Prod", ("List", ("Rec", "PotObj")), ("List", ("Rec", "EamRec")), "Rat", "Int", "Rat", "Int")), records=dict(CP_REC, **{"BuilderObj": {}, "RefObj": {}}),
+         implicit=[("mkRefData", ("Fun", [("Rec", "CpRec")], ("Rec", "RefObj"))),
+                   ("eamBuilder", ("Fun", [("Rec", "CpRec"), "Unit", "Unit", ("Rec", "RefObj")], ("Except", "FactoryErr", ("Rec", "BuilderObj")))),
+                   ("eamPotentialsOf", ("Fun", [("Rec", "BuilderObj")], ("List", ("Rec", "EamRec"))))],
+         ops={"_create_reference_data": ("mkRefData", [("Rec", "CpRec")], ("Rec", "RefObj")),
+              "eam_builder_class": ("eamBuilder", [("Rec", "CpRec"), "Unit", "Unit", ("Rec", "RefObj")], ("Except", "FactoryErr", ("Rec", "BuilderObj")))},
+         attr_ops={("BuilderObj", "eam_potentials"): ("eamPotentialsOf", ("List", ("Rec", "EamRec")))}),
+] + [
+    dict(name="%s_create_tabulation" % k, variant=(k != "pair"), klass=cls, file=TFF, func="PairTabulationFactory.create_tabulation",
+         skip_calls=["self._log_tabulation_details"], logging_only=["%s._log_tabulation_details" % cls],
+         skip_assign_from=["Potential_Form_Registry", "Modifier_Registry"], unit_locals=["potential_form_registry", "modifier_registry"],
+         params=[("cp", ("Rec", "CpRec"))], ret=("Except", "FactoryErr", ("Rec", "TabObj")), records=dict(CP_REC, **{"TabObj": {}}),
+         dispatch={"extract_cutoffs": cut, "extract_potential_objects": "pair_extract_potential_objects", "extract_tabulation_args": args},
+         implicit=[("pairObjects", ("Fun", ["Unit", "Unit", ("Rec", "CpRec")], ("Except", "FactoryErr", ("List", ("Rec", "PotObj")))))] + extra +
+                  [("tabClass", ("Fun", [argty], ("Rec", "TabObj")))],
+         star_ops={"tabulation_class": ("tabClass", argty, ("Rec", "TabObj"))})
+    for k, cls, cut, args, argty, extra in [
+        ("pair", "PairTabulationFactory", "pair_extract_cutoffs", "pair_extract_tabulation_args", ("Prod", ("List", ("Rec", "PotObj")), "Rat", "Int"), []),
+        ("dlpoly", "DLPOLY_PairTabulationFactory", "dlpoly_extract_cutoffs", "pair_extract_tabulation_args", ("Prod", ("List", ("Rec", "PotObj")), "Rat", "Int"), []),
+        ("lammps", "LAMMPS_PairTabulationFactory", "lammps_extract_cutoffs", "pair_extract_tabulation_args", ("Prod", ("List", ("Rec", "PotObj")), "Rat", "Int"), []),
+        ("eam", "EAMTabulationFactory", "eam_extract_cutoffs", "eam_extract_tabulation_args",
+         ("Prod", ("List", ("Rec", "PotObj")), ("List", ("Rec", "EamRec")), "Rat", "Int", "Rat", "Int"),
+         [("mkRefData", ("Fun", [("Rec", "CpRec")], ("Rec", "RefObj"))),
+          ("eamBuilder", ("Fun", [("Rec", "CpRec"), "Unit", "Unit", ("Rec", "RefObj")], ("Except", "FactoryErr", ("Rec", "BuilderObj")))),
+          ("eamPotentialsOf", ("Fun", [("Rec", "BuilderObj")], ("List", ("Rec", "EamRec"))))])]
+] + [
     # ---- C20: the registry's label checks
     dict(name="build_potential_forms", file="config/_potential_form_registry.py", func="Potential_Form_Registry._build_potential_forms",
          params=[("definitions", ("List", ("Rec", "DefRec")))], ret=("Except", "RegErr", ("AssocL", "Str", ("Rec", "FormObj"))), records=REG_REC,
@@ -2280,7 +2408,7 @@ structure EamRec where
   latticeConstant : Rat
   latticeType : String
   embed : FnRec
-  dens : FnRec
+  dens : FnRec := ⟨0⟩
   densFS : List (String × FnRec) := []
 deriving Repr, Inhabited
 
@@ -2470,8 +2598,21 @@ structure CpEam where
   eam_embed : List EmbRow
   eam_density : List EmbRow
 deriving Repr, DecidableEq
+/-- an `[EAM-Density]` row of a Finnis-Sinclair model: `A->B : definition` -/
+structure FsSpecies where
+  from_species : String
+  to_species : String
+deriving Repr, DecidableEq
+structure FsRow where
+  species : FsSpecies
+  pfi : Pfi
+deriving Repr, DecidableEq
+structure CpEamFS where
+  eam_embed : List EmbRow
+  eam_density_fs : List FsRow
+deriving Repr, DecidableEq
 inductive BuildErr where
-  | speciesMismatch | noMass | noAtomicNumber | keyError
+  | speciesMismatch | noMass | noAtomicNumber | keyError | duplicateDensity
 deriving DecidableEq, Repr
 /-- `zero()` -/
 def zeroFn : FnRec := ⟨0⟩
@@ -2586,7 +2727,18 @@ deriving DecidableEq, Repr
 /-- the layout complaints of the tabulation factories -/
 inductive FactoryErr where
   | notMultipleOfFour | fourRowsOrFewer | fewerThanThreePoints
+  | other     -- a configuration error raised by a builder the factory calls (opaque here)
 deriving DecidableEq, Repr
+/-- what a tabulation class constructor returns: opaque (a list of numbers, so that a driver can let it record its arguments) -/
+structure TabObj where
+  args : List Rat
+deriving Repr, DecidableEq
+structure RefObj where
+  id : Nat
+deriving Repr, DecidableEq
+structure BuilderObj where
+  id : Nat
+deriving Repr, DecidableEq
 
 /-- stable insertion: `x` goes after every element `y` with `le y x` -/
 def insertBy {α : Type} (le : α → α → Bool) (x : α) : List α → List α
@@ -2631,6 +2783,130 @@ class _Prep(object):
     targets are the parameters), a final `self.A = v` (returns_attr) is the function's result, class-level dictionaries are in scope."""
 
 
+def mro_owner(tree, cls, method):
+    """the class whose definition of `method` an object of `cls` runs (single inheritance within the file)"""
+    while True:
+        cd = next((n for n in tree.body if isinstance(n, ast.ClassDef) and n.name == cls), None)
+        if cd is None:
+            raise Untranslatable("class %s not found" % cls)
+        if any(isinstance(m, ast.FunctionDef) and m.name == method for m in cd.body):
+            return cls
+        if len(cd.bases) != 1:
+            raise Untranslatable("%s does not define %s and has no single base" % (cls, method))
+        cls = ast.unparse(cd.bases[0])
+
+
+PURE_CALLS = {"sorted", "isinstance", "len", "str", "list", "tuple", "set"}
+PURE_METHODS = {"keys", "values", "items", "format", "getChild", "getLogger"}
+
+
+def _is_logging_stmt(x):
+    return isinstance(x, ast.Expr) and isinstance(x.value, ast.Call) and isinstance(x.value.func, ast.Attribute) and isinstance(x.value.func.value, ast.Name) \
+        and x.value.func.value.id == "logger" and x.value.func.attr in ("info", "warning", "debug", "error")
+
+
+def _pure_expr(e):
+    """no call other than the listed side-effect-free builtins / methods (attribute reads and subscripts of records and dictionaries are taken to be plain reads)"""
+    for n in ast.walk(e):
+        if isinstance(n, ast.Call):
+            f = n.func
+            if isinstance(f, ast.Name) and f.id in PURE_CALLS:
+                continue
+            if isinstance(f, ast.Attribute) and f.attr in PURE_METHODS:
+                continue
+            return False
+        if isinstance(n, (ast.Yield, ast.YieldFrom, ast.Await, ast.NamedExpr, ast.Lambda)):
+            return False
+    return True
+
+
+def _loads(e):
+    return set(n.id for n in ast.walk(e) if isinstance(n, ast.Name) and isinstance(n.ctx, ast.Load))
+
+
+def dead_code(stmts, live):
+    """statements that only feed log messages removed (backwards liveness): -> (kept statements, names live before them).  A statement is removed when it is a logging
+    call, or an assignment of a side-effect-free expression to names nothing later reads, or an `if` / `for` whose bodies reduce to nothing and whose test / iterable is
+    side-effect-free.  Everything else is kept as it is."""
+    out = []
+    for st in reversed(stmts):
+        if _is_logging_stmt(st) or isinstance(st, ast.Pass) or (isinstance(st, ast.Expr) and isinstance(st.value, ast.Constant)):
+            continue
+        if isinstance(st, ast.Assign) and all(isinstance(t, ast.Name) for t in st.targets) and _pure_expr(st.value):
+            tg = set(t.id for t in st.targets)
+            if not (tg & live):
+                continue
+            live = (live - tg) | _loads(st.value)
+            out.append(st)
+            continue
+        if isinstance(st, ast.If):
+            b, lb = dead_code(st.body, set(live))
+            o, lo = dead_code(st.orelse, set(live))
+            if not b and not o and _pure_expr(st.test):
+                continue
+            import copy as _c
+            st2 = _c.copy(st)
+            st2.body, st2.orelse = (b or [ast.copy_location(ast.Pass(), st)]), o
+            live = lb | lo | _loads(st.test)
+            out.append(st2)
+            continue
+        if isinstance(st, ast.For) and not st.orelse and _pure_expr(st.iter):
+            lv = set(live)
+            for _ in range(10):
+                b, lb = dead_code(st.body, set(lv))
+                if lb <= lv:
+                    break
+                lv |= lb
+            if not b:
+                continue
+            import copy as _c
+            st2 = _c.copy(st)
+            st2.body = b
+            tg = set(n.id for n in ast.walk(st.target) if isinstance(n, ast.Name))
+            live = (lv - tg) | _loads(st.iter) | live
+            out.append(st2)
+            continue
+        # anything else is kept; every name it mentions is live
+        live = live | set(n.id for n in ast.walk(st) if isinstance(n, ast.Name))
+        out.append(st)
+    out.reverse()
+    return out, live
+
+
+def logging_only(tree, cls, method, seen=None):
+    """the method of the class (or of a base class in the same file) does nothing but log: after dead_code its body is empty apart from calls of self methods that are
+    logging-only themselves"""
+    seen = seen or set()
+    if (cls, method) in seen:
+        return True
+    seen.add((cls, method))
+    cd = next((n for n in tree.body if isinstance(n, ast.ClassDef) and n.name == cls), None)
+    if cd is None:
+        return False
+    fn = next((n for n in cd.body if isinstance(n, ast.FunctionDef) and n.name == method), None)
+    if fn is None:
+        return any(logging_only(tree, ast.unparse(b), method, seen) for b in cd.bases)
+    body = [x for x in fn.body if not (isinstance(x, ast.Assign) and len(x.targets) == 1 and isinstance(x.targets[0], ast.Name) and x.targets[0].id == "logger")]
+    # calls of self._log* / super()._log* methods are checked recursively and then treated as logging
+    rest = []
+    for x in body:
+        c = x.value if isinstance(x, ast.Expr) and isinstance(x.value, ast.Call) else None
+        if c is not None and isinstance(c.func, ast.Attribute) and c.func.attr.startswith("_log") and all(_pure_expr(a) for a in c.args) \
+                and all(_pure_expr(k.value) for k in c.keywords):
+            recv = c.func.value
+            if isinstance(recv, ast.Name) and recv.id == "self":
+                # any class of the file may provide it: all definitions of that name must be logging-only
+                defs = [k.name for k in tree.body if isinstance(k, ast.ClassDef) and any(isinstance(m, ast.FunctionDef) and m.name == c.func.attr for m in k.body)]
+                if defs and all(logging_only(tree, k, c.func.attr, seen) for k in defs):
+                    continue
+            if isinstance(recv, ast.Call) and isinstance(recv.func, ast.Name) and recv.func.id == "super":
+                if all(logging_only(tree, ast.unparse(b), c.func.attr, seen) for b in cd.bases):
+                    continue
+        rest.append(x)
+    kept, _ = dead_code(rest, set())
+    return not kept
+
+
 def prepare(spec, src, tree):
     import copy
     fn = copy.deepcopy(find_function(tree, spec["func"], spec.get("nth", 0)))
@@ -2651,6 +2927,13 @@ def prepare(spec, src, tree):
             if nm in spec.get("skip_assign_from", []):
                 continue
         body.append(st)
+    for cls_m in spec.get("logging_only", []):
+        # a method the function calls for its log output only (the call is in skip_calls): checked here - it computes nothing else
+        kc, km = cls_m.rsplit(".", 1)
+        if not logging_only(tree, kc, km):
+            raise Untranslatable("%s does more than log" % cls_m)
+    if spec.get("dead_code"):
+        body, _ = dead_code(body, set())
     if spec.get("inline"):
         # a call statement `self.helper(a, b, c)` whose arguments are exactly the helper's parameter names is replaced by the helper's body (a pure substitution)
         def inline_in(stmts):
@@ -2803,7 +3086,24 @@ def gen_logic(repo, outdir, summary, write_if_changed):
                 if dn not in defs or not isinstance(defs[dn], ast.Constant) or defs[dn].value != want:
                     raise Untranslatable("default of %s is not %s" % (dn, dv))
             p = _SegProc(spec, src, fn, procs)
+            p.called = []
             text = p.translate()
+            if spec.get("klass"):
+                # the function as it behaves on an object of the subclass `klass`: what is taken from the base class (the function itself, and the methods it calls
+                # that were translated from the base class) must not be overridden by the subclass - read from the class statement
+                kcls = next((n for n in tree.body if isinstance(n, ast.ClassDef) and n.name == spec["klass"]), None)
+                if kcls is None or len(kcls.bases) != 1:
+                    raise Untranslatable("no class %s with one base" % spec["klass"])
+                base = ast.unparse(kcls.bases[0])
+                own = set(n.name for n in kcls.body if isinstance(n, ast.FunctionDef))
+                for q in [spec] + p.called:
+                    if q["file"] != spec["file"] or "." not in q["func"]:
+                        continue
+                    qcls, qm = q["func"].rsplit(".", 1)
+                    if qcls == spec["klass"]:
+                        continue
+                    if qcls != base or qm in own:
+                        raise Untranslatable("%s: %s is not what an object of %s runs" % (spec["name"], q["func"], spec["klass"]))
             res[spec["name"]] = True
             out.append("/-- %s `%s` -/" % (spec["file"], spec["func"]))
             out.append(text)
